@@ -785,6 +785,22 @@ async fn drive_session<T: netconf::transport::Transport>(
         },
     };
     ev["after"] = after;
+    // ... and closing the session is an operation too: once the peer has gone it must end (with an error or not), not hang
+    if case["close"].as_str().unwrap_or("none") != "none" {
+        let closing = async {
+            match session.close().await {
+                Err(e) => json!({"out": "err", "at": "send", "err": err_class(&e)}),
+                Ok(f) => match f.await {
+                    Ok(()) => json!({"out": "ok"}),
+                    Err(e) => json!({"out": "err", "err": err_class(&e)}),
+                },
+            }
+        };
+        ev["closeop"] = match timeout(WATCHDOG, closing).await {
+            Err(_) => json!({"out": "timeout"}),
+            Ok(v) => v,
+        };
+    }
     ev
 }
 
